@@ -28,6 +28,8 @@ pub enum Regime {
     Outlier,
     /// the price moves only on every second step (identical consecutive bars in between)
     Stair,
+    /// short saw-tooth with inexact steps: m * (1.1 + (t mod 7) * 123.456) - biased rounding of the deltas
+    ShortSaw,
 }
 
 impl Regime {
@@ -46,6 +48,7 @@ impl Regime {
             Regime::Spikes => "spikes",
             Regime::Outlier => "outlier",
             Regime::Stair => "stair",
+            Regime::ShortSaw => "short-saw",
         }
     }
 }
@@ -116,6 +119,7 @@ impl Gen {
                 }
             }
             Regime::Outlier => self.x,
+            Regime::ShortSaw => m * (1.1 + (self.t % 7) as f64 * 123.456),
             Regime::Stair => {
                 // triangle wave between 100 m and 200 m, one move every second step: stays inside the band
                 let j = (self.t / 2) % 40;
